@@ -1,22 +1,157 @@
-(* Properties/Properties_C14.v — allocation histories.  Statements only; models in Sys/Alloc.v,
-   proofs in Sys/AllocInv.v.  PARTIAL at this commit: the invariant is proven for the block-cache
-   layer (m4ri_mmc_malloc / free / cleanup); the header cache and the lift to arbitrary histories of
-   mzd_init / window / free / fini are being proven (see DESIGN.md C14). *)
-From Coq Require Import List NArith.
+(* Properties/Properties_C14.v -- allocation histories: fresh matrices are zero, disjoint and safely
+   recyclable.  Statements only; model in Sys/Alloc.v (extracted and compared with the library by
+   tools/props/c14.py), proofs in Sys/AllocInv.v.
+
+   All theorems quantify over EVERY parameter record [p] with NBLOCKS >= 1 ([params_ok]; cache sizes,
+   threshold, both caches on or off) and EVERY well-formed history [ops] ([wf_ops]: the user does not
+   free a handle twice, does not create a view of a freed matrix, does not write through a dangling
+   view).  [run p ops] = (final state, emitted event trace). *)
+From Coq Require Import List NArith Bool.
 From M4 Require Import Sys.Alloc Sys.AllocInv.
+Import ListNotations.
+Local Open Scope N_scope.
 
-Theorem C14_mmc_malloc_partial : forall p s held hx sz s' d ev,
-  Inv p s held hx -> sz <> 0%N -> mmc_malloc p s sz = (s', d, ev) ->
-  Inv p s' (d :: held) hx /\ evs_ok s ev s' /\ hrel s s' /\
-  st_hb s' = st_hb s /\ st_cur s' = st_cur s /\ st_mats s' = st_mats s /\
-  (exists b, heap_find (st_heap s') d = Some b /\ b_size b = sz).
-Proof. exact mmc_malloc_inv. Qed.
-Print Assumptions C14_mmc_malloc_partial.
+(* 1. the ownership invariant (every system block has exactly one owner: a live non-window matrix,
+      a live malloc'd header, a block-cache slot, or the header-block list; used bits = live headers) *)
+Theorem C14_alloc_inv : forall p ops,
+  params_ok p -> wf_ops ops = true -> Inv p (fst (run p ops)) [] [].
+Proof. exact alloc_inv. Qed.
+Print Assumptions C14_alloc_inv.
 
-Theorem C14_mmc_cleanup_partial : forall p s held hx s' ev,
-  Inv p s held hx -> mmc_cleanup p s = (s', ev) ->
-  Inv p s' held hx /\ evs_ok s ev s' /\ hrel s s' /\
-  st_hb s' = st_hb s /\ st_cur s' = st_cur s /\ st_mats s' = st_mats s /\
-  (enable_mmc p = true -> forall x, cnt (flat_map slot_ids (st_mmc s')) x = 0%nat).
-Proof. exact mmc_cleanup_inv. Qed.
-Print Assumptions C14_mmc_cleanup_partial.
+(* 2. the matrix returned by mzd_init after any history is all zero, whatever dirty block the cache
+      handed back; [fill_of] = 0 means every byte of the block is zero (NULL data for zero area) *)
+Theorem C14_fresh_zero : forall p ops r c,
+  params_ok p -> wf_ops ops = true ->
+  let s := fst (run p ops) in
+  let s' := fst (run p (ops ++ [Init r c])) in
+  exists m ev0,
+    st_mats s' = st_mats s ++ [m] /\ m_live m = true /\ m_win m = false /\ m_rows m = r /\ m_cols m = c /\
+    snd (run p (ops ++ [Init r c]))
+      = ev0 ++ [RetInit (length (st_mats s)) r c (rowstride_of c) (data_id m) (m_hdr m) true] /\
+    fill_of s' (data_id m) = 0 /\
+    match m_data m with
+    | Some (d, off) => r <> 0 /\ c <> 0 /\ off = 0 /\
+                       heap_find (st_heap s') d = Some (mkBlk (r * rowstride_of c * 8) 0)
+    | None => r = 0 \/ c = 0
+    end.
+Proof. exact fresh_zero. Qed.
+Print Assumptions C14_fresh_zero.
+
+(* 3. distinct live matrices have distinct header slots and (non-windows) distinct data blocks, a data
+      block is never another matrix's malloc'd header; the blocks of a live matrix are allocated and
+      sit in neither cache; a cached header slot of a live matrix is marked used in a linked block *)
+Theorem C14_live_disjoint : forall p ops,
+  params_ok p -> wf_ops ops = true ->
+  let s := fst (run p ops) in
+  (forall h1 h2 m1 m2, h1 <> h2 -> nth_error (st_mats s) h1 = Some m1 -> nth_error (st_mats s) h2 = Some m2 ->
+     m_live m1 = true -> m_live m2 = true ->
+     m_hdr m1 <> m_hdr m2 /\
+     (m_win m1 = false -> m_win m2 = false -> forall k1 k2, data_id m1 = Some k1 -> data_id m2 = Some k2 -> k1 <> k2) /\
+     (m_win m1 = false -> forall k, data_id m1 = Some k -> m_hdr m2 <> HMalloc k)) /\
+  (forall h m, nth_error (st_mats s) h = Some m -> m_live m = true ->
+     (m_win m = false -> forall k, data_id m = Some k ->
+        In k (keys (st_heap s)) /\
+        (forall sl, In sl (st_mmc s) -> s_size sl <> 0 -> s_data sl <> Some k) /\
+        ~ In (Some k) (map fst (st_hb s)) /\ m_hdr m <> HMalloc k) /\
+     match m_hdr m with
+     | HSlot c e => In c (map fst (st_hb s)) /\ N.testbit (hb_used (st_hb s) c) e = true
+     | HMalloc i => In i (keys (st_heap s)) /\
+                    (forall sl, In sl (st_mmc s) -> s_size sl <> 0 -> s_data sl <> Some i) /\
+                    ~ In (Some i) (map fst (st_hb s))
+     end).
+Proof. exact live_disjoint. Qed.
+Print Assumptions C14_live_disjoint.
+
+(* 4a. any live matrix may be freed at any time: the invariant survives, every other matrix record is
+       untouched and the block (identity, size, fill) of every other live matrix is unchanged *)
+Theorem C14_free_any_order : forall p ops h,
+  params_ok p -> wf_ops (ops ++ [Free h]) = true ->
+  let s := fst (run p ops) in
+  let s' := fst (run p (ops ++ [Free h])) in
+  Inv p s' [] [] /\
+  forall h' m', h' <> h -> nth_error (st_mats s) h' = Some m' ->
+    nth_error (st_mats s') h' = Some m' /\
+    (m_live m' = true -> m_win m' = false -> forall k, data_id m' = Some k ->
+       exists b, heap_find (st_heap s) k = Some b /\ heap_find (st_heap s') k = Some b).
+Proof. exact free_any_order. Qed.
+Print Assumptions C14_free_any_order.
+
+(* 4b. freeing a view neither frees nor changes the block of the matrix owning the storage *)
+Theorem C14_window_free_keeps_data : forall p ops h W,
+  params_ok p -> wf_ops (ops ++ [Free h]) = true ->
+  let s := fst (run p ops) in
+  let s' := fst (run p (ops ++ [Free h])) in
+  nth_error (st_mats s) h = Some W -> m_win W = true ->
+  exists P, m_root W <> h /\ nth_error (st_mats s) (m_root W) = Some P /\ m_win P = false /\
+            data_id W = data_id P /\
+            nth_error (st_mats s') (m_root W) = Some P /\
+            (m_live P = true -> forall k, data_id P = Some k ->
+               exists b, heap_find (st_heap s) k = Some b /\ heap_find (st_heap s') k = Some b).
+Proof. exact window_free_keeps_data. Qed.
+Print Assumptions C14_window_free_keeps_data.
+
+(* 5. the trace of system calls is that of a sane client: [tcheck] accepts it (every SysAlloc returns an
+      identity not seen before, every SysFree is of a block allocated and not yet freed) and ends in the
+      model's heap; in particular no double free *)
+Theorem C14_trace_ok : forall p ops,
+  params_ok p -> wf_ops ops = true ->
+  tcheck (0, []) (snd (run p ops)) = Some (st_next (fst (run p ops)), keys (st_heap (fst (run p ops)))).
+Proof. exact trace_ok. Qed.
+Print Assumptions C14_trace_ok.
+
+Theorem C14_no_double_free : forall p ops a i b,
+  params_ok p -> wf_ops ops = true -> snd (run p ops) = a ++ SysFree i :: b ->
+  exists nx live, tcheck (0, []) a = Some (nx, live) /\ In i live.
+Proof. exact no_double_free. Qed.
+Print Assumptions C14_no_double_free.
+
+(* 6. retention.  After m4ri_fini the block cache owns nothing, for any history: what stays allocated is
+      exactly the blocks of live matrices and the linked non-static header blocks ... *)
+Theorem C14_fini_retains : forall p ops,
+  params_ok p -> wf_ops ops = true ->
+  let s' := fst (run p (ops ++ [Fini])) in
+  forall x, count_occ N.eq_dec (keys (st_heap s')) x
+            = (count_occ N.eq_dec (flat_map mat_ids (st_mats s')) x
+               + count_occ N.eq_dec (flat_map hb_ids (st_hb s')) x)%nat.
+Proof. exact fini_retains. Qed.
+Print Assumptions C14_fini_retains.
+
+(* ... hence, once every handle has been freed, nothing at all (with either cache on or off) *)
+Theorem C14_no_retention : forall p ops,
+  params_ok p -> wf_ops ops = true -> all_freed ops = true ->
+  keys (st_heap (fst (run p (ops ++ [Fini])))) = [].
+Proof. exact no_retention. Qed.
+Print Assumptions C14_no_retention.
+
+(* Non-vacuity: the hypotheses are satisfiable and the interesting branches are reached (2-slot block
+   cache with an eviction and a dirty exact-size hit; header spill, unlink, plain malloc beyond
+   CACHE_MAX = 2 blocks; views; everything freed + fini, caches on and off) *)
+Example C14_ex_params : params_ok ex_p2 /\ params_ok ex_p_off.
+Proof. exact ex_params_ok. Qed.
+
+Example C14_ex_evict :
+  wf_ops ex_evict = true /\
+  filter is_sys (snd (run ex_p2 ex_evict)) = [SysAlloc 0 48; SysAlloc 1 16; SysAlloc 2 64; SysFree 0] /\
+  heap_find (st_heap (fst (run ex_p2 (firstn 8 ex_evict)))) 1 = Some (mkBlk 16 9) /\
+  heap_find (st_heap (fst (run ex_p2 ex_evict))) 1 = Some (mkBlk 16 0) /\
+  option_map m_data (nth_error (st_mats (fst (run ex_p2 ex_evict))) 3) = Some (Some (1, 0)).
+Proof. exact ex_evict_trace. Qed.
+
+Example C14_ex_spill :
+  wf_ops (repeat (Init 0 0) 65 ++ [Free 64]) = true /\
+  filter is_sys (snd (run ex_p2 (repeat (Init 0 0) 65 ++ [Free 64]))) = [SysAlloc 0 4160; SysFree 0] /\
+  filter is_sys (snd (run ex_p2 (repeat (Init 0 0) 129 ++ [Free 128]))) = [SysAlloc 0 4160; SysAlloc 1 64; SysFree 1] /\
+  option_map m_hdr (nth_error (st_mats (fst (run ex_p2 (repeat (Init 0 0) 129)))) 128) = Some (HMalloc 1).
+Proof. exact ex_spill_trace. Qed.
+
+Example C14_ex_no_retention :
+  wf_ops ex_all = true /\ all_freed ex_all = true /\
+  keys (st_heap (fst (run ex_p2 ex_all))) = [2; 1] /\
+  keys (st_heap (fst (run ex_p2 (ex_all ++ [Fini])))) = [] /\
+  keys (st_heap (fst (run ex_p_off ex_all))) = [].
+Proof. exact ex_no_retention. Qed.
+
+Example C14_ex_free_window :
+  wf_ops [Init 3 3; Write 0 7; Window 0 1 0 3 3; Free 1] = true /\
+  heap_find (st_heap (fst (run ex_p2 [Init 3 3; Write 0 7; Window 0 1 0 3 3; Free 1]))) 0 = Some (mkBlk 48 7).
+Proof. exact ex_free_window. Qed.
